@@ -58,6 +58,8 @@ type sgen struct {
 	pureMid  int  // functions that use no ancestor binding themselves (their descendants do)
 	failNext bool // the next function generated raises an error at the end of its body (after its closures escaped)
 	failing  int
+	omitted  int // calls that leave a defaulted parameter out
+	wrappers int // `name := func ... name ...` in a nested block
 }
 
 func id(n string) *gen.Ident { return &gen.Ident{Name: n} }
@@ -153,6 +155,22 @@ func (g *sgen) fn(level int, env []vref) *gen.FuncLit {
 	for i := 0; i < nops; i++ {
 		body = append(body, mutate(own))
 	}
+	if g.r.Chance(1, 4) {
+		// wrapper idiom in a nested block: `e := func(x) { ... e ... }` declares a new e for the rest of the
+		// block, while the literal's own e is the binding visible where the literal is written (a local or
+		// parameter of this function, or a binding of an enclosing function)
+		e := mon.Pick(g.r, own)
+		g.noteCap(level, e.level)
+		g.wrappers++
+		x := g.fresh("x")
+		lit := &gen.FuncLit{Params: []gen.Param{{Name: x}}, Body: []gen.Stmt{&gen.Return{X: &gen.Binary{Op: "+", L: id(e.name), R: id(x)}}}}
+		then := []gen.Stmt{decl(e.name, lit), logStmt(g.n, call(id(e.name), num(1+g.r.Intn(4))))}
+		if g.r.Chance(1, 2) {
+			// ... and the outer binding keeps changing underneath the wrapper
+			then = append(then, &gen.Assign{Target: id("g0"), Op: "+=", X: call(id(e.name), num(1))})
+		}
+		body = append(body, es(&gen.IfExpr{Cond: &gen.Binary{Op: ">=", L: id(d), R: num(-1000)}, Then: then}))
+	}
 	// children
 	var rets []gen.Expr
 	place := func(child *gen.FuncLit, scope *[]gen.Stmt, inLoop bool, forceTry bool) {
@@ -172,6 +190,11 @@ func (g *sgen) fn(level int, env []vref) *gen.FuncLit {
 		tag := g.n
 		switch route {
 		case "now":
+			if len(child.Params) == 1 && child.Params[0].Default != nil && g.r.Chance(1, 2) {
+				// the defaulted parameter is left out: the closure's own default fills it
+				g.omitted++
+				*scope = append(*scope, logStmt(tag, call(id(c))))
+			}
 			*scope = append(*scope, logStmt(tag, call(id(c), num(1+g.r.Intn(3)))))
 			if g.r.Chance(1, 2) {
 				*scope = append(*scope, logStmt(tag, call(id(c), num(2)))) // called twice: state persists
@@ -534,6 +557,8 @@ type out struct {
 	DeepOff     int            `json:"deep_off"`      // ... at least one off-stack deep capture (recorded finding D1 applies)
 	Routes      map[string]int `json:"routes"`
 	HostCalls   int            `json:"host_calls"`
+	Omitted     int            `json:"omitted"`  // calls of a closure that leave its defaulted parameter out
+	Wrappers    int            `json:"wrappers"` // `name := func ... name ...` declarations in a nested block
 	Sigs        []string       `json:"sigs"`
 	Fail        []failure      `json:"fail"`
 	Samples     []string       `json:"samples"`
@@ -579,6 +604,8 @@ func worker(kind string, data json.RawMessage) any {
 			o.Routes[k] += v
 		}
 		o.HostCalls += len(rr.Host)
+		o.Omitted += g.omitted
+		o.Wrappers += g.wrappers
 		if mr.Tags["deep-capture"] {
 			o.Deep++
 			if mr.Tags["deep-capture-off-stack"] {
@@ -698,6 +725,8 @@ func drive(d *mon.Driver, replay string) int {
 		d.Event("deep-captures-all-on-stack", o.DeepOnStack)
 		d.Event("deep-captures-off-stack(D1-shape)", o.DeepOff)
 		d.Event("host-side-calls-and-reads", o.HostCalls)
+		d.Event("closure-calls-with-defaulted-parameter-left-out", o.Omitted)
+		d.Event("wrapper-declarations-shadowing-the-name-they-use", o.Wrappers)
 		d.Event("discarded-undecided", o.Discarded)
 		deep += o.Deep
 		deepOn += o.DeepOnStack
